@@ -321,7 +321,16 @@ func (srv *simServer) checkRows(batch input.Batch, toks []float32, vis [][][]vis
 			case ref.undefined:
 				// a Remove failed on this sequence (shift impossible) and the sequence was
 				// used again without having been cleared
-				sig = "overflow>fallback:not-cleared"
+				route := "noerase"
+				switch {
+				case ref.has("shared-cells"):
+					route = "fork" // cells shared with the slot this one was forked from (or into) cannot be shifted
+				case ref.has("noshift"):
+					route = "noshift"
+				case ref.has("shiftfail"):
+					route = "shiftfail"
+				}
+				sig = route + ">overflow>fallback:not-cleared"
 			case symptom == "wrong-position" || symptom == "wrong-token":
 				if srv.f.defragRuns > 0 {
 					sig = family + ":" + symptom + ":after-defrag"
